@@ -68,6 +68,7 @@ type sched struct {
 	trace    []string
 	bubble   string
 	aborted  bool
+	total    int
 	self     int64
 	stackBuf []byte
 }
@@ -138,9 +139,43 @@ func (s *sched) run(rt *rapid.T, names []string, fns []func()) []string {
 // runWith is run with an explicit picking policy (index into the parked
 // tasks, sorted by task number); used by fixed regression schedules.
 func (s *sched) runWith(pickFn func(parked []*parkedTask) int, names []string, fns []func()) []string {
+	wait := s.start(names, fns)
+	// If the controller fails (a rapid draw running out of data while
+	// shrinking, an assertion), never leave tasks parked: let them run free to
+	// completion so that the bubble can end, then pass the failure on.
+	defer func() {
+		if r := recover(); r != nil {
+			s.abort()
+			wait()
+			panic(r)
+		}
+	}()
+	for {
+		s.quiesce()
+		ps := s.parkedList()
+		if len(ps) == 0 {
+			if s.allDone() {
+				break
+			}
+			panic(fmt.Sprintf("sched: deadlock: %d of %d tasks finished, none parked; trace %v", s.numDone(), len(fns), s.trace))
+		}
+		pick := 0
+		if len(ps) > 1 {
+			pick = pickFn(ps)
+		}
+		s.release(ps[pick])
+	}
+	wait()
+	return s.trace
+}
+
+// start launches the tasks (each parks at "start" first) and returns a
+// function that waits for all of them to finish.
+func (s *sched) start(names []string, fns []func()) func() {
 	s.self = goid()
 	s.bubble = myBubble()
 	s.names = names
+	s.total = len(fns)
 	var wg sync.WaitGroup
 	for i, fn := range fns {
 		i, fn := i, fn
@@ -164,58 +199,52 @@ func (s *sched) runWith(pickFn func(parked []*parkedTask) int, names []string, f
 		}()
 		<-ready
 	}
-	// If the controller fails (a rapid draw running out of data while
-	// shrinking, an assertion), never leave tasks parked: let them run free to
-	// completion so that the bubble can end, then pass the failure on.
-	defer func() {
-		if r := recover(); r != nil {
-			s.mu.Lock()
-			s.aborted = true
-			for t, p := range s.parked {
-				close(p.ch)
-				delete(s.parked, t)
-			}
-			s.mu.Unlock()
-			wg.Wait()
-			panic(r)
-		}
-	}()
-	for {
-		s.quiesce()
-		s.mu.Lock()
-		var ids []int
-		for t := range s.parked {
-			ids = append(ids, t)
-		}
-		nDone := len(s.done)
-		s.mu.Unlock()
-		if len(ids) == 0 {
-			if nDone == len(fns) {
-				break
-			}
-			panic(fmt.Sprintf("sched: deadlock: %d of %d tasks finished, none parked; trace %v", nDone, len(fns), s.trace))
-		}
-		sort.Ints(ids)
-		pick := ids[0]
-		if len(ids) > 1 {
-			s.mu.Lock()
-			var ps []*parkedTask
-			for _, id := range ids {
-				ps = append(ps, s.parked[id])
-			}
-			s.mu.Unlock()
-			pick = ids[pickFn(ps)]
-		}
-		s.mu.Lock()
-		p := s.parked[pick]
-		delete(s.parked, pick)
-		s.trace = append(s.trace, fmt.Sprintf("%s@%s", names[pick], p.label))
-		s.mu.Unlock()
-		close(p.ch)
-	}
-	wg.Wait()
-	return s.trace
+	return wg.Wait
 }
+
+// parkedList returns the parked tasks sorted by task number (call after quiesce).
+func (s *sched) parkedList() []*parkedTask {
+	s.mu.Lock()
+	defer s.mu.Unlock()
+	var ids []int
+	for t := range s.parked {
+		ids = append(ids, t)
+	}
+	sort.Ints(ids)
+	var ps []*parkedTask
+	for _, id := range ids {
+		ps = append(ps, s.parked[id])
+	}
+	return ps
+}
+
+func (s *sched) release(p *parkedTask) {
+	s.mu.Lock()
+	delete(s.parked, p.task)
+	s.trace = append(s.trace, fmt.Sprintf("%s@%s", s.names[p.task], p.label))
+	s.mu.Unlock()
+	close(p.ch)
+}
+
+func (s *sched) note(ev string) {
+	s.mu.Lock()
+	s.trace = append(s.trace, ev)
+	s.mu.Unlock()
+}
+
+func (s *sched) abort() {
+	s.mu.Lock()
+	s.aborted = true
+	for t, p := range s.parked {
+		close(p.ch)
+		delete(s.parked, t)
+	}
+	s.mu.Unlock()
+}
+
+func (s *sched) numDone() int      { s.mu.Lock(); defer s.mu.Unlock(); return len(s.done) }
+func (s *sched) allDone() bool     { s.mu.Lock(); defer s.mu.Unlock(); return len(s.done) == s.total }
+func (s *sched) isDone(i int) bool { s.mu.Lock(); defer s.mu.Unlock(); return s.done[i] }
 
 // ---------------------------------------------------------------------------
 // yielding store wrapper: every store call of a task is a yield point.
